@@ -1,6 +1,7 @@
 package drivers
 
 import (
+	"encoding/binary"
 	"bytes"
 	"encoding/json"
 	"os"
@@ -45,6 +46,15 @@ func gbnMsgJSON(m gbn.Message) map[string]any {
 	return map[string]any{"k": "?"}
 }
 
+// exact returns a copy of b whose capacity equals its length: a decoder that
+// slices beyond the length of its input must not be saved by spare capacity
+// (what the transport hands over has whatever capacity it happens to have).
+func exact(b []byte) []byte {
+	c := make([]byte, len(b))
+	copy(c, b)
+	return c[:len(c):len(c)]
+}
+
 func gbnDeserLine(in []byte) map[string]any {
 	line := map[string]any{"op": "gbnDeser", "in": ints(in)}
 	func() {
@@ -53,7 +63,7 @@ func gbnDeserLine(in []byte) map[string]any {
 				line["st"] = "panic"
 			}
 		}()
-		m, err := gbn.Deserialize(append([]byte(nil), in...))
+		m, err := gbn.Deserialize(exact(in))
 		if err != nil {
 			line["st"] = "err"
 			return
@@ -73,7 +83,7 @@ func msgDeserLine(in []byte) map[string]any {
 			}
 		}()
 		m := mailbox.NewMsgData(0, nil)
-		if err := m.Deserialize(append([]byte(nil), in...)); err != nil {
+		if err := m.Deserialize(exact(in)); err != nil {
 			line["st"] = "err"
 			return
 		}
@@ -198,6 +208,7 @@ func TestCodecSweep(t *testing.T) {
 	var firstBad []int
 	try := func(b []byte) {
 		evals++
+		b = exact(b)
 		func() {
 			defer func() {
 				if e := recover(); e != nil {
@@ -258,6 +269,21 @@ func TestCodecSweep(t *testing.T) {
 			b[0] = byte(r.Intn(8))
 		}
 		try(b)
+	}
+	// control-message frames whose length field over- or understates the
+	// body by a few bytes (a truncated frame, a forged length), and GBN
+	// DATA packets cut inside their header
+	for pl := 0; pl <= 40; pl++ {
+		for delta := -6; delta <= 8; delta++ {
+			if pl+delta < 0 {
+				continue
+			}
+			fr := make([]byte, 5+pl)
+			r.Read(fr)
+			fr[0] = 0
+			binary.BigEndian.PutUint32(fr[1:5], uint32(pl+delta))
+			try(fr)
+		}
 	}
 	// large payload round trips
 	large := 0
